@@ -542,10 +542,12 @@ def classify(case, pipe, got_tree=None, want_tree=None):
     if fmt in ("newick", "nexus"):
         if any(l in tuple(STRUCT5) for l in labels):
             return "quoted-structural-char-label"
-        if any(has_trailing_blank_leaf(sp, case["wkw"]) for _r, sp in case["trees"]):
-            return "trailing-blank-leaf"
+        # a blank single-node tree (known finding) first: the trailing-blank-leaf defect is repaired upstream, so in a case
+        # that has both shapes the blank statement is what loses a tree
         if any(is_blank_single_node(sp, case["wkw"]) for _r, sp in case["trees"]):
             return "blank-single-node-tree"
+        if any(has_trailing_blank_leaf(sp, case["wkw"]) for _r, sp in case["trees"]):
+            return "trailing-blank-leaf"
     return "roundtrip-" + pipe
 
 
@@ -813,7 +815,7 @@ def run(tier, seed, replay=None):
         if case["kind"] == "roundtrip":
             print("written:", repr(obs["written"]))
         return 0
-    ok = core.proof_stage(ctx, ["Props/C02.vo"], gen_needed=("CharClasses",))
+    ok = core.proof_stage(ctx, ["Props/C02.vo"], gen_needed=("CharClasses", "NewickGen"))
     if not ok:
         core.broken_proof(ctx, search)
     n = 500 if tier == "quick" else 8000
